@@ -1,7 +1,7 @@
 (* C13 -- data-parallel utilities equal their sequential definition: the property theorems.
    Models: Util/Reduce.v, Util/Sort.v, Util/Allpairs.v (extracted and compared with the real code on every run). *)
 From Coq Require Import List Arith NArith ZArith Permutation.
-From QV Require Import Util.Reduce Util.ReduceProofs.
+From QV Require Import Util.Reduce Util.ReduceProofs Util.Sort Util.SortProofs Util.Allpairs Util.AllpairsProofs.
 Import ListNotations.
 
 (* the worker ranges of qt_loopaccum_balance_inner tile [start,stop): non-empty, consecutive, min(len,workers) of them,
@@ -66,3 +66,57 @@ Proof.
         (conj s_mul_assoc (conj s_mul_comm (conj z_max_assoc (conj z_max_comm (conj z_min_assoc z_min_comm))))))))))).
 Qed.
 Print Assumptions integer_operators_ac.
+
+(* ---------------------------------------------------------------------- sorts *)
+(* sort_permutation -- qutil_qsort, qutil_aligned_qsort, qt_qsort are the instances P = qutil_params / qt_params:
+   for every comparison, every parameter record (chunk, thread count, cutoff, threshold), every input, fuel and
+   segment: a run of the model that returns has only permuted the allocation (every mutation is a SWAP inside it;
+   the sort used below the cutoff is assumed to permute its segment). *)
+Theorem sort_permutation : forall (V : Type) (leb : V -> V -> bool) (dflt : V) (bound : N)
+  (base_sort : arr V -> N -> N -> arr V) (P : params),
+  (forall a b len, (b + len <= bound)%N ->
+     Permutation (to_list V dflt a bound) (to_list V dflt (base_sort a b len) bound)) ->
+  forall fuel wfuel a b len a',
+  qsort_inner V leb dflt bound base_sort P fuel wfuel a b len = Some a' ->
+  Permutation (to_list V dflt a bound) (to_list V dflt a' bound).
+Proof. exact SortProofs.qsort_permutation. Qed.
+Print Assumptions sort_permutation.
+
+(* qsort_terminates (the full statement: for every input some fuel suffices) is REFUTED on the faithful model:
+   when tri-median, partition and fix-up leave a segment above the cutoff unchanged with everything <= pivot,
+   the call recurses on itself with any fuel (known finding qsort-constant-above-cutoff) ... *)
+Theorem qsort_stuck_when_pivot_is_maximum : forall (V : Type) (leb : V -> V -> bool) (dflt : V) (bound : N)
+  (base_sort : arr V -> N -> N -> arr V) (P : params) wfuel a b len lw rw,
+  p_small P len = false ->
+  trimedian V leb dflt bound a b len = Some a ->
+  walls V leb dflt bound P wfuel a b (p_thresh P len) (aget V dflt a (b + len / 2)%N) 0%N (len - 1)%N = Some (a, lw, rw) ->
+  fixup V leb dflt bound a b len (aget V dflt a (b + len / 2)%N) lw rw = Some (a, len) ->
+  (0 < len)%N ->
+  forall fuel, qsort_inner V leb dflt bound base_sort P fuel wfuel a b len = None.
+Proof. exact SortProofs.qsort_inner_stuck. Qed.
+Print Assumptions qsort_stuck_when_pivot_is_maximum.
+
+(* ... and the witness: equal elements, one more than the cutoff (scaled-down parameters: chunk 2, cutoff 4) *)
+Theorem qsort_const_refuted : exists l : list Z, l <> [] /\ forall fuel wfuel, small_qsort 5 fuel wfuel l = None.
+Proof. exists [7; 7; 7; 7; 7]%Z. split; [discriminate|exact SortProofs.qsort_const_diverges]. Qed.
+Print Assumptions qsort_const_refuted.
+
+(* ---------------------------------------------------------------------- allpairs *)
+(* allpairs_exact: every unit-to-sub-queue assignment, every number of workers >= 1, every schedule: no unit is
+   ever lost or duplicated, and when all workers have left every unit has been processed exactly once *)
+Theorem allpairs_exact : forall (units : list (nat * N)) (k : nat) (sched : list apstep), 0 < k ->
+  let s := ap_run (ap_init units k) sched in
+  Permutation (map snd units) (content s) /\
+  (all_done s = true -> Permutation (map snd units) (ap_processed s)).
+Proof. exact AllpairsProofs.allpairs_exact. Qed.
+Print Assumptions allpairs_exact.
+
+(* the pre-fix worker protocol (reverted 20d2f8a) is refuted by a schedule *)
+Theorem allpairs_ptrtest_refuted : exists units k sched,
+  let s := fold_left ap_step_ptrtest sched (ap_init units k) in
+  all_done s = true /\ ap_processed s = [] /\ concat (ap_queues s) <> [].
+Proof.
+  exists [(0, 10%N); (1, 11%N)], 2, [SWork 0 None; SWork 0 None; SWork 1 None; SWork 1 None; SGen; SGen; SGen].
+  vm_compute. repeat split. discriminate.
+Qed.
+Print Assumptions allpairs_ptrtest_refuted.
